@@ -206,8 +206,12 @@ func (e *FnEnc) oblige(o *Obligation) {
 		return
 	}
 	// (loop frames are assumed at the loop header whatever the property, so they are proved whatever the property)
-	if e.con != nil && len(o.Tags) == 0 && o.Kind != "cover" && o.Kind != "bind" && !(o.Kind == "frame" && strings.HasPrefix(o.Name, "loop")) {
-		for _, p := range e.con.ProtocolOnly {
+	con := e.con
+	for p := e.parent; con == nil && p != nil; p = p.parent {
+		con = p.con // code encoded in place belongs to the function it is encoded in
+	}
+	if con != nil && len(o.Tags) == 0 && o.Kind != "cover" && o.Kind != "bind" && !(o.Kind == "frame" && strings.HasPrefix(o.Name, "loop")) {
+		for _, p := range con.ProtocolOnly {
 			if p == e.prop {
 				return // proved in the runs of the properties this function's functional clauses belong to
 			}
